@@ -265,3 +265,43 @@ def lsml_descend(M, vab, vcd, w, prior_inv, iters=150):
     if not improved:
       break
   return M, f
+
+
+# ----------------------------------------------------------------------------- SDML / graphical lasso
+
+def glasso_objective(M, S, lam):
+  sign, logdet = np.linalg.slogdet(M)
+  if sign <= 0:
+    return float('inf')
+  off = np.abs(M).sum() - np.abs(np.diag(M)).sum()
+  return float(np.trace(S.dot(M)) - logdet + lam * off)
+
+
+def glasso_admm(S, lam, iters=20000, tol=1e-11):
+  """minimise tr(S X) - logdet X + lam * sum_{i != j} |X_ij| by ADMM (Boyd et al. 2011, section 6.5),
+  on the problem rescaled to trace(S)/d = 1.  Returns (X, converged)."""
+  d = len(S)
+  s = float(np.trace(S)) / d
+  Ss, ls = S / s, lam / s
+  rho = 1.0
+  Z = np.eye(d)
+  U = np.zeros((d, d))
+  conv = False
+  for it in range(iters):
+    w, Q = np.linalg.eigh(rho * (Z - U) - Ss)
+    x = (w + np.sqrt(w ** 2 + 4 * rho)) / (2 * rho)
+    X = (Q * x).dot(Q.T)
+    Zold = Z
+    A = X + U
+    Z = np.sign(A) * np.maximum(np.abs(A) - ls / rho, 0.0)
+    Z[np.diag_indices(d)] = np.diag(A)
+    U = U + X - Z
+    r = np.linalg.norm(X - Z)
+    sdual = rho * np.linalg.norm(Z - Zold)
+    if r < tol * max(1.0, np.linalg.norm(X)) and sdual < tol * max(1.0, np.linalg.norm(U)):
+      conv = True
+      break
+  Zs = (Z + Z.T) / 2
+  if np.linalg.eigvalsh(Zs).min() > 0:
+    return Zs / s, conv
+  return (X + X.T) / 2 / s, conv
